@@ -478,7 +478,7 @@ def run(ctx) -> None:
 
 
 def replay(case: dict) -> list:
-    st = setup()
+    st = dict(setup(), tmp=tempfile.mkdtemp(prefix="vf_c19r_"))   # replays run concurrently: each gets its own scratch directory
     try:
         return run_case(case, st)[0]
     finally:
